@@ -43,6 +43,7 @@ class Unit:
         self.tier = "quick"
         self.clause = ""
         self.rlimit = None
+        self.paired = None
         self.text = _expand_includes(open(path).read(), os.path.dirname(path))
         for line in self.text.split("\n"):
             s = line.strip()
@@ -53,6 +54,8 @@ class Unit:
                 self.tier = kv.get("tier", "quick")
                 if "rlimit" in kv:
                     self.rlimit = kv["rlimit"]
+            elif s.startswith("//@ paired:"):
+                self.paired = s.split(":", 1)[1].strip()
             elif s.startswith("//@ clause:"):
                 self.clause = (self.clause + " " + s.split(":", 1)[1].strip()).strip()
 
@@ -143,6 +146,17 @@ def render_region(hdr, dirs):
         return render_item(kv, dirs)
     src, ct, (kw, bopen, bclose) = extract_function(kv["file"], kv["fn"], kv.get("in"), int(kv.get("nth", "1")))
     start = ct[kw][2]
+    if kv.get("vis") == "keep":
+        # keep the source's visibility qualifier (default: dropped, see DESIGN 3.2)
+        j = kw - 1
+        if j >= 0 and ct[j][1] == ")":
+            k2 = j
+            while k2 > 0 and ct[k2][1] != "(":
+                k2 -= 1
+            if k2 > 0 and ct[k2 - 1][1] == "pub":
+                start = ct[k2 - 1][2]
+        elif j >= 0 and ct[j][1] == "pub":
+            start = ct[j][2]
     end = ct[bclose][3]
     inserts = []  # (offset, text, order)
     hoisted = []
